@@ -185,7 +185,7 @@ fn zero_sized(tys: &[T], i: i64, depth: usize) -> bool {
     }
 }
 
-/// walk one value; `count` accumulates the announced zero-sized elements and the elements really walked
+/// walk one value; `count` accumulates the announced zero-sized vector elements
 fn walk(tys: &[T], i: i64, r: &mut Rd, count: &mut u64, depth: usize) -> Option<()> {
     if depth > 300 || *count > LIMIT {
         return None;
@@ -221,8 +221,8 @@ fn walk(tys: &[T], i: i64, r: &mut Rd, count: &mut u64, depth: usize) -> Option<
                 *count = count.saturating_add(n);
                 return Some(());
             }
+            // elements that occupy bytes are bounded by the length of the message
             for _ in 0..n {
-                *count += 1;
                 walk(tys, t, r, count, depth + 1)?;
             }
             Some(())
